@@ -246,8 +246,12 @@ func (c *Collector) collect() {
 
 	// generate the new hot keys.
 	res := newSortedHotKeys(c.capacity)
-	for keyName, counter := range curHotKeys {
+	for keyName, cur := range curHotKeys {
 		visits := accessedKeyNames[keyName]
+		// NOTE: the counters of the published keys are read without lock by
+		// the callers of HotKeys, never modify them in place.
+		counter := new(logrithmCounter)
+		*counter = *cur
 		counter.ReaptIncr(visits)
 		key := HotKey{Name: keyName, Counter: counter}
 		res.Insert(key)
@@ -271,20 +275,18 @@ func (c *Collector) evictStale() {
 	c.rwmu.Lock()
 	defer c.rwmu.Unlock()
 
-	// halve counter
+	// halve counter and remove stale
+	// NOTE: work on copies, see collect.
 	curTimeInMinute := nowInMinute()
+	keys := make([]HotKey, 0, len(c.keys))
 	for _, key := range c.keys {
-		counter := key.Counter
+		counter := new(logrithmCounter)
+		*counter = *key.Counter
 		if curTimeInMinute > counter.LastUpdateTimeInMinute() {
 			counter.Halve()
 		}
-	}
-
-	// remove stale
-	keys := make([]HotKey, 0, len(c.keys))
-	for _, key := range c.keys {
-		if key.Counter.Value() != 0 {
-			keys = append(keys, key)
+		if counter.Value() != 0 {
+			keys = append(keys, HotKey{Name: key.Name, Counter: counter})
 		}
 	}
 	c.keys = keys
